@@ -1,5 +1,5 @@
 (* C14 — size_limit plugin: bodies are bounded, everything within bounds is untouched.  Statements only. *)
-From Helios Require Import Base.Prelude Model.RespWriter Proofs.WriterProofs.
+From Helios Require Import Base.Prelude Model.RespWriter Proofs.WriterProofs Proofs.GzipProofs Proofs.SizeLimitProofs.
 
 (* the client never receives more than max_response_body body bytes, for EVERY sequence of
    Header().Set/Del, WriteHeader, Write (any partition of the body) and Flush calls of the handler *)
@@ -34,11 +34,26 @@ Theorem C14_request :
 Proof. exact sl_request_spec. Qed.
 Print Assumptions C14_request.
 
-(* PARTIAL: transparency within the limits (client view through the plugin = direct client view, for
-   well-formed handler scripts) is decided on every implementation run by the differential monitor
-   mon_c14_transparent over real connections; its simulation proof over RespWriter.v is not done yet. *)
+(* Exchanges within the limit pass through unchanged - interim responses, status, headers, body - bodiless responses included:
+   for every limit and every well-formed handler script (headers, interim responses, at most one final WriteHeader with a valid
+   code, then writes and flushes in any partition) whose body stays within the limit, the client of the wrapper sees exactly what
+   the client of the bare handler sees *)
+Theorem C14_transparent :
+  forall limit cs, 0 <= limit -> wf_script cs = true -> valid_codes cs = true -> written_total cs <= limit ->
+    view (base_run base0 (sl_transform limit cs)) = view (base_run base0 cs).
+Proof. exact sl_transparent. Qed.
+Print Assumptions C14_transparent.
+
 Example C14_nonvacuous :
   sl_transform 5 [CHead 204] = [CHead 204] /\
   sl_transform 5 [CHead 201; CWrite (PRaw 3); CWrite (PRaw 2); CWrite (PRaw 1)] = [CHead 201; CWrite (PRaw 3); CWrite (PRaw 2)] /\
   sl_transform 5 [CWrite (PRaw 6)] = [CDel H_CL; CHead 413; CFlush].
+Proof. vm_compute. repeat split; reflexivity. Qed.
+
+(* the hypotheses of C14_transparent are satisfiable by scripts that exercise the deferred status: a bodiless 204, a 201 with a
+   body of exactly the limit in three writes *)
+Example C14_transparent_nonvacuous :
+  (wf_script [CSet 10 7; CHead 103; CHead 204] && valid_codes [CSet 10 7; CHead 103; CHead 204]) = true /\
+  (wf_script [CHead 201; CWrite (PRaw 3); CFlush; CWrite (PRaw 1); CWrite (PRaw 1)] = true /\ written_total [CHead 201; CWrite (PRaw 3); CFlush; CWrite (PRaw 1); CWrite (PRaw 1)] = 5) /\
+  v_status (view (base_run base0 (sl_transform 5 [CSet 10 7; CHead 103; CHead 204]))) = 204.
 Proof. vm_compute. repeat split; reflexivity. Qed.
